@@ -229,7 +229,7 @@ func run(cfg runConfig) (*runResult, error) {
 		if err != nil {
 			return nil, err
 		}
-		res.sel = selectFor(cfg.prop, props[cfg.prop], db, fns, lr, cfg.repo, cfg.tier == "thorough")
+		res.sel = selectFor(cfg.prop, props[cfg.prop], db, fns, lr, cfg.repo, cfg.tier == "thorough" || os.Getenv("VCGO_ANCHORS_ONLY") == "")
 		keys = res.sel.keys
 		cfg.props = nil
 		res.uncontracted = uncontractedExported(props[cfg.prop], db, fns, lr, cfg.repo)
